@@ -39,8 +39,12 @@ Verifiers == {"rp.VerifyIDToken", "rp.VerifyTokens", "op.VerifyAccessToken", "op
 Payloads == {"null", "array", "number", "string", "true", "truncJSON", "badUTF8", "emptyObject", "audNonString", "audNumber", "expString", "expHuge", "expObject",
              "nestedActor50", "amrNumber", "localeNumber", "emailVerifiedObject", "scopeArray", "issNumber", "valid"}
 Segs == {"0", "1", "2", "3", "4", "badB64", "emptyPayload"}
-VerifyCases == {[kind |-> "verify", fn |-> f, payload |-> p, segs |-> "3"] : f \in Verifiers, p \in Payloads}
-               \cup {[kind |-> "verify", fn |-> f, payload |-> "valid", segs |-> s] : f \in Verifiers, s \in Segs}
+\* hdr: how the token header relates to the key set - "fits", or the header names an algorithm of another key family than the
+\* (only) key of the set, e.g. ES256 while the set holds an RSA key (the signature bytes are garbage then)
+Hdrs == {"esAlgRsaKey", "esAlgOkpKey", "rsAlgEcKey", "psAlgEcKey", "edAlgRsaKey", "edAlgEcKey", "es384AlgRsaKey"}
+VerifyCases == {[kind |-> "verify", fn |-> f, payload |-> p, segs |-> "3", hdr |-> "fits"] : f \in Verifiers, p \in Payloads}
+               \cup {[kind |-> "verify", fn |-> f, payload |-> "valid", segs |-> s, hdr |-> "fits"] : f \in Verifiers, s \in Segs}
+               \cup {[kind |-> "verify", fn |-> f, payload |-> "valid", segs |-> "3", hdr |-> h] : f \in Verifiers, h \in Hdrs}
 
 ClaimTypes == {"IDTokenClaims", "AccessTokenClaims", "LogoutTokenClaims", "UserInfo", "IntrospectionResponse", "JWTProfileAssertionClaims", "JWTTokenRequest",
                "ActorClaims", "TokenExchangeResponse", "AccessTokenResponse", "DiscoveryConfiguration", "DeviceAuthorizationResponse", "RequestObject", "AuthRequest", "Error"}
@@ -53,7 +57,8 @@ DecodeCases == {[kind |-> "decode", t |-> t, field |-> f, form |-> x] : t \in Cl
 Helpers == {"client.Discover", "rp.NewRelyingPartyOIDC", "rp.CodeExchange", "rp.RefreshTokens", "rp.ClientCredentials", "rp.Userinfo", "rp.EndSession", "rp.RevokeToken",
             "rp.DeviceAuthorization", "rp.DeviceAccessToken", "rp.remoteKeySet", "rs.NewResourceServer", "rs.Introspect", "tokenexchange.ExchangeToken", "client.JWTProfileExchange"}
 Statuses == {200, 204, 302, 400, 401, 500}
-Bodies == {"empty", "null", "array", "number", "string", "emptyObject", "truncated", "wrongTyped", "errorDoc", "html", "valid"}
+\* stall: the provider takes the request and does not answer (the caller's deadline, or a network time-out, ends it)
+Bodies == {"empty", "null", "array", "number", "string", "emptyObject", "truncated", "wrongTyped", "errorDoc", "html", "valid", "stall"}
 ClientCases == {[kind |-> "client", helper |-> h, status |-> s, body |-> b] : h \in Helpers, s \in Statuses, b \in Bodies}
 
 Groups == {"http", "verify", "decode", "client"}
@@ -72,8 +77,9 @@ Rules(c, o) ==
     <<"C09.client.errorStatus", (c.kind = "client" /\ c.status \in {400, 401, 500}) => o.class = "error">>,
     <<"C09.client.noDocument", (c.kind = "client" /\ c.status = 200 /\ c.body \in {"empty", "null", "truncated", "html"}
                                    /\ c.helper \notin {"rp.RevokeToken", "rp.EndSession"}) => o.class = "error">>,
+    <<"C09.client.noAnswer", (c.kind = "client" /\ c.body = "stall") => o.class = "error">>,
     \* a verifier never accepts what is not a signed object with claims
-    <<"C09.verify.rejects", (c.kind = "verify" /\ c.fn # "oidc.ParseToken" /\ (c.payload # "valid" \/ c.segs # "3")) => o.class # "value">> }
+    <<"C09.verify.rejects", (c.kind = "verify" /\ c.fn # "oidc.ParseToken" /\ (c.payload # "valid" \/ c.segs # "3" \/ c.hdr # "fits")) => o.class # "value">> }
 Check(c, o) == {x[1] : x \in {y \in Rules(c, o) : ~y[2]}}
 
 Outcomes(c) == IF c.kind = "http" THEN {[class |-> "response", status |-> 400, writes |-> 1, after |-> 0]}
